@@ -1,11 +1,12 @@
 (** C14 - Every supported data format round-trips values on its documented domain.
     Models: Fmts/Yaml.v (the YAML writer of jaq-fmts/src/write/yaml.rs with [must_quote] and block/flow styles, and the
     reader's resolution of untagged plain scalars of jaq-fmts/src/read/yaml.rs), Fmts/Tabular.v (CSV/TSV writer and the
-    reader's state machine).  The YAML scanner, CBOR, TOML and XML tokenizers are third-party: those formats are decided by
-    round trips on the implementation and independent readers (checks/c14.py), not by these theorems. *)
+    reader's state machine), Fmts/Cbor.v (writer and reader of jaq-fmts/src/{write,read}/cbor.rs with the header layer of
+    ciborium-ll).  The YAML scanner, TOML and XML tokenizers are third-party: those formats are decided by round trips on the
+    implementation and independent readers (checks/c14.py), not by these theorems. *)
 From Coq Require Import List ZArith Bool.
 From Coq Require Import Init.Byte.
-From JaqV Require Import Base.Bytes Base.F64 Val.Num Val.Val Json.Write Json.Read Fmts.Yaml Fmts.Tabular Proofs.YamlLaws Proofs.TabularLaws.
+From JaqV Require Import Base.Bytes Base.F64 Val.Num Val.Val Json.Write Json.Read Fmts.Yaml Fmts.Tabular Proofs.YamlLaws Proofs.TabularLaws Fmts.Cbor Proofs.CborLaws.
 Import ListNotations.
 Local Open Scope Z_scope.
 
@@ -84,3 +85,27 @@ Theorem yaml_integer_roundtrip : forall z,
   resolve (to_yaml (Num (int_or_big z))) = Num (if (0 <=? z)%Z then int_or_big z else Num.neg (int_or_big (- z))).
 Proof. exact YamlLaws.yaml_integer_roundtrip. Qed.
 Print Assumptions yaml_integer_roundtrip.
+
+(** CBOR: reading what the writer wrote yields the value, whatever follows it in the input - for every value built from
+    null, booleans, machine integers, big integers of any size, byte strings, valid UTF-8 text strings, arrays and objects
+    with any such values as keys ([cb]; sizes below 2^64 as every length in a 64-bit process is); floats, decimal literals
+    and invalid UTF-8 (documented exceptions) stay with the correspondence *)
+Theorem cbor_value_roundtrip : forall v rest, CborLaws.cb v -> parse_one (encode v ++ rest) = DOk v rest.
+Proof. exact CborLaws.cbor_roundtrip. Qed.
+Print Assumptions cbor_value_roundtrip.
+
+(** ... and a sequence of written values is read back as that sequence, ended by the end of the input *)
+Theorem cbor_sequence_roundtrip : forall vs, Forall CborLaws.cb vs -> decode_many (flat_map encode vs) = (vs, MEnd).
+Proof. exact CborLaws.cbor_many_roundtrip. Qed.
+Print Assumptions cbor_sequence_roundtrip.
+
+(** the headers: every argument below 2^64 is written in the shortest width and read back with its major type *)
+Theorem cbor_header_roundtrip : forall major arg rest, 0 <= major < 8 -> 0 <= arg < 18446744073709551616 ->
+  exists w, title (head major arg ++ rest) = DOk (major, Some arg, w) rest.
+Proof. exact CborLaws.title_head. Qed.
+Print Assumptions cbor_header_roundtrip.
+
+(** big integers: the shortest big-endian magnitude is read back as the number *)
+Theorem cbor_magnitude_roundtrip : forall z, 0 <= z -> be_val (to_bytes_be z) = z.
+Proof. exact CborLaws.to_bytes_be_val. Qed.
+Print Assumptions cbor_magnitude_roundtrip.
